@@ -103,6 +103,9 @@ async def explore(tier, seed, m):
         b = await build(sg, renv, sources, log)
         for di in range(ndocs):
             dg = DocGen(sg, rng)
+            # no nullable variable at a non-null argument position: a null there fails ARGUMENT coercion while the source is
+            # created, which the statement leaves open (only validation / variable-coercion failures are specified)
+            dg.nullable_default_vars = 0.0
             q, f, vars_ = sub_document(sg, rng, dg)
             variables, _ = dg.variables_for(vars_, invalid=0.2)
             kind = "valid"
